@@ -83,12 +83,22 @@ def _mutation_nodes(g):
     return out
 
 
+def _inlined(chk: Check, ci, fi):
+    """handle_upload with its local helpers (delete path, target resolution,
+    atomic store, ...) inlined; the containment predicate stays a call."""
+    from ..cfg import inline_local
+
+    preds = _safe_pred_methods(ci)
+    pol = lambda caller, call, callee, depth, _p=preds: inline_local(caller, call, callee, depth) and callee.node.name not in _p  # noqa: E731
+    return Builder(chk.proj, pol, 4).build(fi)
+
+
 def rule_u1(chk: Check, ci) -> None:
     chk.rule("U1", "for each violating sample no feasible path reaches a filesystem mutation; a conforming sample does; every mutated path is resolved and contained")
     fi = ci.methods.get("handle_upload")
     if fi is None:
         chk.floor("U1", "handle_upload", 0, 1)
-    g = Builder(chk.proj, inline_self_methods, 3).build(fi)
+    g = _inlined(chk, ci, fi)
     muts = _mutation_nodes(g)
     chk.require("U1", fi.key, "filesystem mutation sites", len(muts), 3, "the upload handler no longer stores or deletes anything")
     mut_ids = {n.id for n, _c, _m in muts}
@@ -138,59 +148,54 @@ def rule_u1(chk: Check, ci) -> None:
     chk.ob("U1", "conforming delete reaches unlink", okd, evals=max(1, len(res)))
     if not okd:
         chk.finding("U1", fi.key, "conforming-never-deleted", "with deletion enabled a zero-byte request never reaches unlink", fi.loc())
-    # containment of the mutated paths (per function, non-inlined graphs)
+    # containment of the mutated paths, on the inlined graph
     preds = _safe_pred_methods(ci)
-    for name in ("handle_upload", "_handle_delete"):
-        m = ci.methods.get(name)
-        if m is None:
+    g2 = g
+    d2 = Defs(g2)
+    for n, c, what in muts:
+        m = n.func
+        mc = method_call(c)
+        cand = None
+        if (dotted(c.func) or "") in OS_MUTATORS or dotted(c.func) == "open":
+            mc = None
+        if mc and isinstance(mc[0], ast.Name):
+            cand = mc[0]
+        elif mc and isinstance(mc[0], ast.Attribute) and mc[0].attr == "parent" and isinstance(mc[0].value, ast.Name):
+            cand = mc[0].value  # parent of a contained non-root path is contained
+        elif (dotted(c.func) or "") in OS_MUTATORS or dotted(c.func) == "open":
+            args = [a for a in c.args if isinstance(a, ast.Name)]
+            if dotted(c.func) in ("os.replace", "os.rename", "shutil.move") and len(c.args) >= 2 and isinstance(c.args[1], ast.Name):
+                cand = c.args[1]
+            elif args:
+                cand = args[0]
+        if cand is None:
+            chk.finding("U1", m.key, f"mutation-operand:{norm(c)[:50]}", "cannot identify the path operand of a filesystem mutation", n.where())
+            chk.ob("U1", f"{m.key}:{norm(c)[:40]} contained", False)
             continue
-        g2 = build_cfg(chk.proj, m)
-        d2 = Defs(g2)
-        for n, c, what in _mutation_nodes(g2):
-            mc = method_call(c)
-            var = None
-            derived_from_tmp = False
-            cand = None
-            if (dotted(c.func) or "") in OS_MUTATORS or dotted(c.func) == "open":
-                mc = None
-            if mc and isinstance(mc[0], ast.Name):
-                cand = mc[0]
-            elif mc and isinstance(mc[0], ast.Attribute) and mc[0].attr == "parent" and isinstance(mc[0].value, ast.Name):
-                cand = mc[0].value  # parent of a contained non-root path is contained
-            elif (dotted(c.func) or "") in OS_MUTATORS or dotted(c.func) == "open":
-                # destination operand (last positional path argument)
-                args = [a for a in c.args if isinstance(a, ast.Name)]
-                if dotted(c.func) in ("os.replace", "os.rename", "shutil.move") and len(c.args) >= 2 and isinstance(c.args[1], ast.Name):
-                    cand = c.args[1]
-                elif args:
-                    cand = args[0]
-            if cand is None:
-                chk.finding("U1", m.key, f"mutation-operand:{norm(c)[:50]}", "cannot identify the path operand of a filesystem mutation", n.where())
-                chk.ob("U1", f"{m.key}:{norm(c)[:40]} contained", False)
-                continue
-            # a temporary path built as <contained>.parent / literal-ish name is contained with its sibling
-            ok = True
-            for dn, le in origins(d2, n, cand):
-                if isinstance(le, ast.BinOp) and isinstance(le.op, ast.Div) and isinstance(le.left, ast.Attribute) and le.left.attr == "parent" and isinstance(le.left.value, ast.Name):
-                    nm = [x for x in walk(le.right) if isinstance(x, (ast.Name, ast.Attribute)) and (dotted(x) or "").split(".")[0] in m.params]
-                    if nm:
-                        ok = False
-                        chk.finding("U1", m.key, f"temp-name-from-request:{norm(le)[:50]}", "a temporary file name is derived from the request: it can contain path separators", dn.where())
-                    elif not check_value(chk, g2, d2, dn, le.left.value.id, preds, m, what, rule="U1"):
-                        ok = False
-                elif isinstance(le, ast.Call) and (dotted(le.func) or "").split(".")[-1] in ("mkstemp", "NamedTemporaryFile") or isinstance(le, _Sel):
-                    continue  # created by tempfile in a directory checked at its call (dir=)
-                else:
-                    if not check_value(chk, g2, d2, n, cand.id, preds, m, what, rule="U1"):
-                        ok = False
-                    break
-            chk.ob("U1", f"{m.key}: `{norm(c)[:50]}` operates on a resolved, contained path", ok, evals=2)
+        ok = True
+        handled = False
+        for dn, le in origins(d2, n, cand):
+            # a temporary path built as <contained>.parent / <name not taken from the request>
+            if isinstance(le, ast.BinOp) and isinstance(le.op, ast.Div) and isinstance(le.left, ast.Attribute) and le.left.attr == "parent" and isinstance(le.left.value, ast.Name):
+                handled = True
+                reqish = [x for x in walk(le.right) if isinstance(x, (ast.Name, ast.Attribute)) and (dotted(x) or "").split(".")[0] in fi.params and (dotted(x) or "").split(".")[0] != "self"]
+                if reqish:
+                    ok = False
+                    chk.finding("U1", m.key, f"temp-name-from-request:{norm(le)[:50]}", "a temporary file name is derived from the request: it can contain path separators", dn.where())
+                elif not check_value(chk, g2, d2, dn, le.left.value.id, preds, dn.func, what, rule="U1"):
+                    ok = False
+            elif isinstance(le, ast.Call) and (dotted(le.func) or "").split(".")[-1] in ("mkstemp", "NamedTemporaryFile"):
+                handled = True
+        if not handled:
+            if not check_value(chk, g2, d2, n, cand.id, preds, m, what, rule="U1"):
+                ok = False
+        chk.ob("U1", f"{m.key}: `{norm(c)[:50]}` operates on a resolved, contained path", ok, evals=2)
 
 
 def rule_u2(chk: Check, ci) -> None:
     chk.rule("U2", "no in-place (truncating) write of the target; content changes by atomic rename from a temp file in the same directory; temp file removed on every failing path")
     fi = ci.methods["handle_upload"]
-    g = build_cfg(chk.proj, fi)
+    g = _inlined(chk, ci, fi)
     defs = Defs(g)
     muts = _mutation_nodes(g)
     trunc = []
@@ -241,7 +246,7 @@ def rule_u2(chk: Check, ci) -> None:
 def rule_u3(chk: Check, ci) -> None:
     chk.rule("U3", "the bytes written are request.content unchanged")
     fi = ci.methods["handle_upload"]
-    g = build_cfg(chk.proj, fi)
+    g = _inlined(chk, ci, fi)
     defs = Defs(g)
     req = [p for p in fi.params if p != "self"][0]
     n = 0
